@@ -14,5 +14,5 @@ fi
 mkdir -p "$s/out"
 /verif/bin/govc check -repo "$s/repo" -verif /verif -prop "$prop" -tier quick -out "$s/out" > "$s/log" 2>&1
 rc=$?
-echo "$name [$prop] rc=$rc: $(grep -c '^VIOLATION' $s/log) violations: $(grep '^VIOLATION' $s/log | sed 's/.*obligation=//;s/ status=.*//' | head -4 | tr '\n' ' ')"
+echo "$name [$prop] rc=$rc: $(grep -c '^VIOLATION' $s/log) violations: $(grep '^VIOLATION' $s/log | sed 's/.*obligation=//;s/ status=.*//' | head -10 | tr '\n' ' ')"
 tail -1 "$s/log"
